@@ -229,3 +229,61 @@ Proof.
       destruct (decide (x = v)) as [->|]; [|by rewrite lookup_insert_ne].
       rewrite lookup_insert, HV. done.
 Qed.
+
+Lemma inv_eval_update_index s v new fits : Inv s → Inv (eval_update_index s v new fits).1.
+Proof.
+  intros Hinv. unfold eval_update_index.
+  destruct (evals s !! v) as [V|] eqn:HV; [|done].
+  destruct (decide (v_index V = new)) as [|Hne]; [done|].
+  destruct (v_parent V) as [e|] eqn:Hpar.
+  - destruct (enums s !! e) as [E|] eqn:HE; [|done].
+    unfold verify_value_index.
+    destruct (e_valueIdx E !! new) eqn:Hix; [done|].
+    destruct (_ && _); [done|].
+    cbn [fst ok].
+    assert (v ∈ e_values E) as Hin.
+    { destruct (inv_enum_up s Hinv _ _ _ HV Hpar) as (E0 & ? & ?). by simplify_eq. }
+    destruct Hinv. split; cbn; try assumption; try (inv_auto; fail).
+    + fresh_tac inv_fresh.
+    + inv_ex inv_enum_down.
+    + inv_ex inv_enum_up.
+    + intros e0 E0 Hl. lookup_cases Hl.
+      all: eapply IndexOK_ext; [by eauto|]; intros h;
+        (destruct (decide (h = v)) as [->|]; [|by apply key_eval_name_ne]);
+        rewrite key_eval_name_eq, (key_eval_name_val _ _ _ _ HV); done.
+    + intros e0 E0 Hl. lookup_cases Hl.
+      * eapply IndexOK_rekey; eauto.
+        -- by rewrite (key_eval_index_val _ _ _ _ HV), decide_True.
+        -- rewrite key_eval_index_eq. cbn. by rewrite decide_True.
+        -- intros h Hh. by apply key_eval_index_ne.
+      * eapply IndexOK_ext; [by eauto|]. intros h.
+        destruct (decide (h = v)) as [->|]; [|by apply key_eval_index_ne].
+        rewrite key_eval_index_eq, (key_eval_index_val _ _ _ _ HV). cbn. rewrite Hpar.
+        repeat case_decide; congruence.
+    + intros e0 E0 Hl. lookup_cases Hl.
+      * unfold modify_max_index.
+        assert (elements (e_values E) ≡ₚ v :: elements (e_values E ∖ {[v]})) as Hperm.
+        { rewrite <- elements_union_singleton by set_solver.
+          by rewrite <- union_difference_singleton_L. }
+        rewrite (max_index_perm _ _ _ Hperm). cbn [max_index foldr]. rewrite lookup_insert. cbn.
+        f_equal. symmetry. apply max_index_insert_other. rewrite elem_of_elements. set_solver.
+      * rewrite (inv_enum_max _ _ Hl). symmetry. apply max_index_ext. intros x Hx.
+        destruct (decide (x = v)) as [->|]; [|by rewrite lookup_insert_ne].
+        exfalso. apply elem_of_elements in Hx.
+        destruct (inv_enum_down _ _ _ Hl Hx) as (V0 & ? & ?). simplify_eq.
+  - cbn [fst ok].
+    destruct Hinv. split; cbn; try assumption; try (inv_auto; fail).
+    + fresh_tac inv_fresh.
+    + inv_ex inv_enum_down.
+    + intros e0 E0 HE0. eapply IndexOK_ext; [by eauto|]. intros h.
+      destruct (decide (h = v)) as [->|]; [|by apply key_eval_name_ne].
+      rewrite key_eval_name_eq, (key_eval_name_val _ _ _ _ HV). done.
+    + intros e0 E0 HE0. eapply IndexOK_ext; [by eauto|]. intros h.
+      destruct (decide (h = v)) as [->|]; [|by apply key_eval_index_ne].
+      rewrite key_eval_index_eq, (key_eval_index_val _ _ _ _ HV). cbn. rewrite Hpar.
+      repeat case_decide; congruence.
+    + intros e0 E0 HE0. erewrite inv_enum_max by eauto. symmetry. apply max_index_ext. intros x Hx.
+      destruct (decide (x = v)) as [->|]; [|by rewrite lookup_insert_ne].
+      exfalso. apply elem_of_elements in Hx.
+      destruct (inv_enum_down _ _ _ HE0 Hx) as (V0 & ? & ?). simplify_eq.
+Qed.
